@@ -397,8 +397,8 @@ V(id='c13-benign-unpacked', prop='C13', file='mpmath/libmp/libelefun.py',
 
 # ---------------------------------------------------------------- C02 -------
 V(id='c02-add-guard-mismatch', prop='C02', file='mpmath/libmp/libmpf.py',
-  old="                    if delta > prec + 4:\n                        offset = prec + 4\n                        sman <<= offset",
-  new="                    if delta > prec:\n                        offset = prec + 4\n                        sman <<= offset",
+  old="                    if delta > prec + 4 and offset >= tbc:\n                        offset = prec + 4\n                        sman <<= offset",
+  new="                    if delta > prec and offset >= tbc:\n                        offset = prec + 4\n                        sman <<= offset",
   expect='fire:B-R4i:mpf_add')
 V(id='c02-tie-mask-width', prop='C02', file='mpmath/libmp/libmpf.py',
   old="        return (MPZ_ONE<<(n-1))-1", new="        return (MPZ_ONE<<n)-1",
@@ -428,10 +428,10 @@ V(id='c02-mpf-new-early-return', prop='C02', file='mpmath/ctx_mp_python.py',
   new="            if not kwargs or ((not man) and exp):\n                return val\n            v = new(cls)",
   expect='fire:B-R3t:__new__')
 V(id='c02-benign-extra-guard-bits', prop='C02', file='mpmath/libmp/libmpf.py',
-  edits=[("                    if delta > prec + 4:\n                        offset = prec + 4\n                        sman <<= offset",
-          "                    if delta > prec + 6:\n                        offset = prec + 6\n                        sman <<= offset"),
-         ("                    if delta > prec + 4:\n                        offset = prec + 4\n                        tman <<= offset",
-          "                    if delta > prec + 6:\n                        offset = prec + 6\n                        tman <<= offset")],
+  edits=[("                    if delta > prec + 4 and offset >= tbc:\n                        offset = prec + 4\n                        sman <<= offset",
+          "                    if delta > prec + 6 and offset >= tbc:\n                        offset = prec + 6\n                        sman <<= offset"),
+         ("                    if delta > prec + 4 and -offset >= sbc:\n                        offset = prec + 4\n                        tman <<= offset",
+          "                    if delta > prec + 6 and -offset >= sbc:\n                        offset = prec + 6\n                        tman <<= offset")],
   expect='silent')
 
 # ---------------------------------------------------------------- C03 -------
@@ -1319,3 +1319,42 @@ V(id='c09-benign-constructor-single-rounding', prop='C09', file='mpmath/ctx_mp_p
 V(id='c09-benign-from-float-64', prop='C09', file='mpmath/libmp/libmpf.py',
   old="    return from_man_exp(int(m*(1<<53)), e-53, prec, rnd)", new="    return from_man_exp(int(m*(1<<64)), e-64, prec, rnd)",
   expect='silent')
+
+# ------------------------------------------------ C-R10, B-R4i no-overlap, mpc eq operand, keyword independence ----
+V(id='c14-log-perturb-sign-of-t', prop='C14', file='mpmath/libmp/libelefun.py',
+  old="            return mpf_perturb(t, 1, prec, rnd)", new="            return mpf_perturb(t, tsign, prec, rnd)",
+  expect='fire:C-R10:mpf_log')
+V(id='c14-atan-perturb-same', prop='C14', file='mpmath/libmp/libelefun.py',
+  old="    if -mag > prec+20:\n        return mpf_perturb(x, 1-sign, prec, rnd)", new="    if -mag > prec+20:\n        return mpf_perturb(x, sign, prec, rnd)",
+  expect='fire:C-R10:mpf_atan')
+V(id='c14-cos-perturb-up', prop='C14', file='mpmath/libmp/libelefun.py',
+  old="            c = mpf_perturb(fone, 1, prec, rnd)", new="            c = mpf_perturb(fone, 0, prec, rnd)",
+  expect='fire:C-R10:mpf_cos_sin')
+V(id='c14-benign-perturb-xor-form', prop='C14', file='mpmath/libmp/libelefun.py',
+  old="    if -mag > prec+20:\n        return mpf_perturb(x, 1-sign, prec, rnd)", new="    if -mag > prec+20:\n        return mpf_perturb(x, sign ^ 1, prec, rnd)",
+  expect='silent')
+V(id='c02-add-shortcut-overlap', prop='C02', file='mpmath/libmp/libmpf.py',
+  old="                    if delta > prec + 4 and offset >= tbc:", new="                    if delta > prec + 4:",
+  expect='fire:B-R4i:mpf_add')
+V(id='c02-add-shortcut-overlap-other-arm', prop='C02', file='mpmath/libmp/libmpf.py',
+  old="                    if delta > prec + 4 and -offset >= sbc:", new="                    if delta > prec + 4 and -offset >= tbc:",
+  expect='fire:B-R4i:mpf_add')
+V(id='c02-mpf-new-rounding-under-dps', prop='C02', file='mpmath/ctx_mp_python.py',
+  old="            prec = kwargs.get('prec', prec)\n            if 'dps' in kwargs:\n                prec = dps_to_prec(kwargs['dps'])\n            rounding = kwargs.get('rounding', rounding)\n        if type(val) is cls:",
+  new="            if 'dps' in kwargs:\n                prec = dps_to_prec(kwargs['dps'])\n            else:\n                prec = kwargs.get('prec', prec)\n                rounding = kwargs.get('rounding', rounding)\n        if type(val) is cls:",
+  expect='fire:B-R3t:_mpf.__new__')
+V(id='c02-sqrt-approx-root', prop='C02', file='mpmath/libmp/libmpf.py',
+  old="    if rnd in 'fd':\n        man = isqrt(man<<shift)", new="    if rnd in 'fd':\n        man = isqrt_fast(man<<shift)",
+  expect='fire:B-R4i:mpf_sqrt')
+V(id='c03-pow-int-exponent-rounded', prop='C03', file='mpmath/ctx_mp_python.py',
+  old="    'val = mpf_pow_int(sval, other, prec, rounding)' + return_mpf,",
+  new="    'tval = from_int(other, prec, rounding)' + mpf_pow_same,",
+  expect='fire:B-R3x:_mpf.__pow__')
+V(id='c04-mpc-eq-constructor', prop='C04', file='mpmath/ctx_mp_python.py',
+  old="            if t is NotImplemented:\n                return t\n        return s.real == t.real and s.imag == t.imag",
+  new="            if t is NotImplemented:\n                return t\n            t = s.context.mpc(t)\n        return s.real == t.real and s.imag == t.imag",
+  expect='fire:H-C04:_mpc.__eq__')
+V(id='c07-power-as-divisor', prop='C07', file='mpmath/libmp/libmpf.py',
+  old="        s = mpf_mul(s, mpf_pow_int(ften, exp, prec+10, prnd), prec, rnd)",
+  new="        t = mpf_pow_int(ften, abs(exp), prec+10, prnd)\n        if exp < 0:\n            s = mpf_div(s, t, prec, rnd)\n        else:\n            s = mpf_mul(s, t, prec, rnd)",
+  expect='fire:B-R5:from_str')
